@@ -106,7 +106,7 @@ def _find_answer(self, backend=None):
         st.current_solver = None
         ctx.count("msolve.find_answer.raised")
         st.last = {"call": "find_answer", "raised": repr(e)}
-        if st.judge_exc:
+        if st.judge_exc and not isinstance(e, ImportError):
             try:
                 for c in self.constraints:
                     tree_ops(c, {})
@@ -182,7 +182,7 @@ def _solve(self, backend=None):
         st.current_solver = None
         ctx.count("msolve.solve.raised")
         st.last = {"call": "solve", "raised": repr(e)}
-        if st.judge_exc and _well_typed(self):
+        if st.judge_exc and not isinstance(e, ImportError) and _well_typed(self):
             _report(st, f"solve-raises:{type(e).__name__}", f"solve({bname}) raised {e!r} on a well-typed program", self)
         raise
     st.current_solver = None
